@@ -13,11 +13,14 @@ func init() { rules["C06"] = ruleC06 }
 
 // guardedBy checks LK.guard: every access to owner.{fields} outside the constructor of a fresh
 // object holds owner.<mutex> (exclusive for writes). Returns the number of accesses examined.
-func guardedBy(w *World, r *Report, rule, owner string, fields map[string]bool, mutex string) int {
+func guardedBy(w *World, r *Report, rule, owner string, fields map[string]bool, mutex string, skip ...func(fieldAccess) bool) int {
 	la := w.Locks()
 	n := 0
 	for _, a := range w.accessesOf(map[string]bool{owner: true}) {
 		if !fields[a.fld.Name()] || a.fresh {
+			continue
+		}
+		if len(skip) > 0 && skip[0](a) {
 			continue
 		}
 		n++
@@ -182,7 +185,22 @@ func atomicSections(w *World, r *Report, rule string, f *ssa.Function, owner str
 		}
 	})
 	n := 0
+	// an exclusive lock held by every caller around the whole function serialises its executions:
+	// its critical sections cannot interleave with those of another caller
+	outer := ""
+	if ent, ok := w.Locks().entry[f]; ok && !ent.top {
+		for mu, m := range ent.held {
+			if m == modeW && mu.Name() != mutex {
+				outer = mu.Name()
+			}
+		}
+	}
 	for _, wr := range writes {
+		if outer != "" {
+			n++
+			r.ok(rule, fn, fmt.Sprintf("%s of %s.%s #%d decided inside its own critical section", wr.what, owner, wr.path, ordinalIn(f, wr.ins)), w.Pos(wr.ins.Pos()), "every caller holds "+outer+" around the whole function: executions are serialised")
+			continue
+		}
 		stale := map[string]fieldAccess{}
 		fresh := map[string]bool{}
 		for _, rd := range reads {
